@@ -439,10 +439,15 @@ impl ToOrdinal {
                 return Some(String::from(number));
             }
             // remove any block separators
+            let original_number = number;
             let number = match clean_number(number, &block_separators) {
                 None => return Some(String::from(number)),
                 Some(num) => num,
             };
+            if number.is_empty() {
+                // all the chars were block separators (possible if the BlockSeparators pref has digits in it)
+                return Some(String::from(original_number));
+            }
     
             // check to see if the number is too big or is not an integer or has non-digits
             if number.len() > 3*numbers_large.len() {
